@@ -504,6 +504,14 @@ func (n *Node) sortRec() {
 	}
 }
 
+// SortedCopyShallow returns a shallow copy of a mapping with its pairs sorted by key.
+func (n *Node) SortedCopyShallow() *Node {
+	c := *n
+	c.Map = append([]Pair(nil), n.Map...)
+	sort.SliceStable(c.Map, func(i, j int) bool { return c.Map[i].Key < c.Map[j].Key })
+	return &c
+}
+
 // Walk calls f on every node of a plain tree (pre-order).
 func (n *Node) Walk(f func(*Node)) {
 	if n == nil {
